@@ -33,7 +33,7 @@ INVARIANTS = ["FilesCoherent", "SourceCoherent", "InferNoStalePositive", "Import
 
 def constants(max_ops, external=True, two_packages=False):
     return {
-        "DirNames": {"pkg", "q"}, "FileNames": {"a", "b", "i"}, "MaxDepth": 2,
+        "DirNames": {"pkg", "q"}, "FileNames": {"a", "b", "i", "t"}, "MaxDepth": 2,
         "MaxOps": max_ops, "Contents": {1, 2},
         "ImportsOf": tlc.Sub("MCImports"),
         "InitTreesC": tlc.Sub("MCInitTreesC2" if two_packages else "MCInitTreesC"),
@@ -47,7 +47,9 @@ def rpath(p):
     last = names[-1]
     if last in ("pkg", "q"):
         return "/".join(names)
-    if last == "i":
+    if last == "t":
+        names[-1] = "t.txt"
+    elif last == "i":
         names[-1] = "__init__.py" if len(names) > 1 else "i.py"
     else:
         names[-1] = last + ".py"
@@ -161,9 +163,17 @@ def run_behaviour(beh):
             warm_ai.update_resource(r0)
         clock = [os.path.getmtime(root) + 1000.0]
 
-        def tick(path):
-            clock[0] += 2.0
-            os.utime(path, (clock[0], clock[0]))
+        older = [int(common.digest(beh["trail"]), 16) % 2 == 1]
+
+        def tick(path, prev=None):
+            # an external edit changes (mtime, size); half of the behaviours make the new mtime OLDER than
+            # the replaced file's (a restored backup, cp -p, tar x), the other half newer
+            if prev is not None and older[0]:
+                t = prev - 5.0
+            else:
+                clock[0] += 2.0
+                t = clock[0]
+            os.utime(path, (t, t))
 
         for st in trail[1:]:
             act, l = st["act"], st["leaf"]
@@ -187,9 +197,10 @@ def run_behaviour(beh):
                 full = os.path.join(root, rpath(l["p"]))
                 parent = os.path.dirname(full)
                 if l["k"] == "W":
+                    prev = os.path.getmtime(full)
                     with open(full, "w") as f:
                         f.write(BODIES[l["c"]])
-                    tick(full)
+                    tick(full, prev)
                 elif l["k"] == "CF":
                     open(full, "w").close()
                     tick(full)
